@@ -2,6 +2,7 @@ package main
 
 import (
 	"fmt"
+	"math"
 	"strings"
 
 	"github.com/emirpasic/gods/v2/queues/priorityqueue"
@@ -44,6 +45,7 @@ func jobsFor(prop, tier string) []Job {
 		bidiJobs(prop, q, add)
 	case "C07":
 		kvTreeJobs(prop, q, add)
+		jsonFamilyJobs(q, add)
 		defaultCtorJobs(prop, q, add)
 		bidiJobs(prop, q, add)
 	case "C10":
@@ -74,6 +76,7 @@ func jobsFor(prop, tier string) []Job {
 	case "C06":
 		for _, k := range []string{"binaryheap", "priorityqueue"} {
 			add("heapnew", fmt.Sprintf("%s.New.n%d", k, pick(6, 8)), 30, map[string]string{"c": k}, map[string]int{"n": pick(6, 8), "u": 3})
+			add("heapnewf", fmt.Sprintf("%s.New.float.n%d", k, pick(5, 6)), 30, map[string]string{"c": k}, map[string]int{"n": pick(5, 6), "u": pick(4, 5)})
 			for _, c := range []string{"min", "max"} {
 				n := pick(5, 6)
 				add("heap", fmt.Sprintf("%s.%s.n%d.p3", k, c, n), n*10, map[string]string{"c": k, "cmp": c}, map[string]int{"n": n, "pmax": 3, "jsonlen": pick(3, 4)})
@@ -190,6 +193,7 @@ func jobsFor(prop, tier string) []Job {
 			}
 			add("json11", jb.id, jb.w, jb.s, jb.p)
 		}
+		jsonFamilyJobs(q, add)
 	case "C12":
 		cj := jsonContainerJobs(q, pick(2, 3), pick(2, 3))
 		// comparators with ties between distinct JSON keys / elements (the reference is relational:
@@ -211,6 +215,7 @@ func jobsFor(prop, tier string) []Job {
 			jb.p["prior"] = pick(2, 3)
 			add("json12", jb.id, jb.w+10, jb.s, jb.p)
 		}
+		jsonFamilyJobs(q, add)
 	case "C17":
 		// the union of all alphabets and nested enumerations above, under the guards:
 		// panic, bytes on fd 1/2, liveness horizon, heap ceiling, fatal-error attribution
@@ -341,6 +346,30 @@ func jobsFor(prop, tier string) []Job {
 		}
 	}
 	return jobs
+}
+
+// jsonFamilyJobs: loaded comparator trees of every size up to a bound as start states (jsoncheck.go)
+func jsonFamilyJobs(q bool, add func(kind, id string, w int, s map[string]string, p map[string]int)) {
+	pick := func(a, b int) int {
+		if q {
+			return a
+		}
+		return b
+	}
+	for _, t := range []struct {
+		c string
+		m int
+	}{{"rbt", 0}, {"avl", 0}, {"treemap", 0}, {"treebidimap", 0}, {"btree", 3}, {"btree", 4}, {"btree", 5}} {
+		id := t.c
+		if t.m > 0 {
+			id = fmt.Sprintf("%s%d", t.c, t.m)
+		}
+		maxn, deepn := pick(33, 64), pick(10, 16)
+		if t.c == "treebidimap" { // every (key, value) pair is a Put: quadratically many operations per level
+			maxn, deepn = pick(12, 20), pick(3, 4)
+		}
+		add("jsonfamily", id+".jsonfamily", 20, map[string]string{"c": t.c}, map[string]int{"m": t.m, "maxn": maxn, "deepn": deepn})
+	}
 }
 
 type cjob struct {
@@ -566,6 +595,23 @@ func init() {
 			e.OnState = func(path []Op, build func() Inst, st *Stats) *Viol {
 				st.Nested["drains"]++
 				return build().(*heapBox[int]).drain()
+			}
+		})
+	}
+	// the default comparator must be a strict weak order on the WHOLE element type: float64 with NaN
+	// (cmp.Compare orders NaN before every number), infinities and the two zeros
+	jobKinds["heapnewf"] = func(j Job, r *JobResult) {
+		s := scalarHeapSys[float64](j.s("c", ""), "min", j.p("n", 5), []float64{math.NaN(), 1, 2, 5, math.Inf(-1)}[:j.p("u", 4)], -99, 0)
+		s.Label = "/New()/float64"
+		if s.Kind == "binaryheap" {
+			s.Custom = func(b *heapBox[float64]) { b.a = wrapHeap(binaryheap.New[float64]()) }
+		} else {
+			s.Custom = func(b *heapBox[float64]) { b.a = wrapPQ(priorityqueue.New[float64]()) }
+		}
+		exploreJob(j, r, s, func(e *Explorer) {
+			e.OnState = func(path []Op, build func() Inst, st *Stats) *Viol {
+				st.Nested["drains"]++
+				return build().(*heapBox[float64]).drain()
 			}
 		})
 	}
